@@ -17,6 +17,7 @@ ENGINES = [
     {"name": "mutation self-test", "path": "geolint/selftest.py", "serves_properties": [], "kind_free_text": "in-memory textual variants of the current tree: breaking variants must be reported with the named rule, twins must be silent"},
     {"name": "E11 sign-domain membership", "path": "geolint/signdom.py", "serves_properties": ["C16"], "kind_free_text": "abstract interpretation of Triangle.contains over the finite domain of sign vectors of its barycentric determinants (exhaustive, both orientations, scalar and vectorised path) against the closed-triangle specification; closedness rules for the bound comparisons of the segment test and the boundary/coplanarity conjuncts of the polygon test"},
     {"name": "E12 closed-form kernels", "path": "geolint/polyform.py", "serves_properties": ["C20", "C13"], "kind_free_text": "normal form of entry-wise expressions as polynomials over matrix-entry atoms compared with the Leibniz expansion; evaluation of literal fancy-index tables and constant slice patterns as index sets compared with the cofactor and Levi-Civita definitions"},
+    {"name": "E13 index kinds", "path": "geolint/indexing.py", "serves_properties": ["C19"], "kind_free_text": "abstract interpreter for straight Python (geolint/absint.py: ordinary values for structure, Arr(ndim, kind) for arrays, a table of numpy transfer functions) applied to Tensor._get_index_mapping for every index tuple of an enumerated domain of index kinds; oracle geolint/indexspec.py (numpy's basic/advanced indexing rules at the level of kinds, validated against numpy by tools/validate_indexspec.py)"},
     {"name": "E9 kind dispatch", "path": "geolint/dispatch.py", "serves_properties": ["C09"], "kind_free_text": "decision-list evaluation of isinstance dispatch over all ordered pairs of concrete kinds with static class hierarchy; reduction graph, cycles, documented pairs, kind-blind equality short-cut"},
 ]
 
@@ -30,8 +31,8 @@ NOT_APPLICABLE = [
 CHECKS = [
     {
         "id": "C19", "engine": "E2/E3/E4.V1 operator consistency", "design_ref": "4 (E2, E3, E4 V1), 5 C19",
-        "technique": "AST rules: super()-delegation agreement, reflected-operator operand order, operator presence by MRO, literal dispatch tables vs data-model oracle, constructor index-set abstract transfer",
-        "text": "Structural clauses of C19 only: every arithmetic dunder falls through to the same operator of its base class, reflected dunders swap operands, every operator C19 names exists for every concrete tensor class, the ufunc->dunder tables and the dispatcher's operand/name choice agree with the Python data model, arithmetic results are constructed with index sets the constructor interprets correctly for collections, raw array arithmetic (<x>.array OP p) never receives a Tensor operand - numpy would hand it to the Tensor's reflected operator and the result would carry the other operand's index types -, and transpose derives the result's index sets as the preimage (not the image) of the source sets under the permutation. Exhaustive over all super() sites, dunders, table entries and construction sites of the package. The numbers returned and the index mapping of __getitem__ for arbitrary numpy indices are NOT decided.",
+        "technique": "AST rules: super()-delegation agreement, reflected-operator operand order, operator presence by MRO, literal dispatch tables vs data-model oracle, constructor index-set abstract transfer; abstract interpretation of the index-mapping code over a finite domain of index kinds against a table of numpy's indexing rules",
+        "text": "Structural clauses of C19 only: every arithmetic dunder falls through to the same operator of its base class, reflected dunders swap operands, every operator C19 names exists for every concrete tensor class, the ufunc->dunder tables and the dispatcher's operand/name choice agree with the Python data model, arithmetic results are constructed with index sets the constructor interprets correctly for collections, raw array arithmetic (<x>.array OP p) never receives a Tensor operand - numpy would hand it to the Tensor's reflected operator and the result would carry the other operand's index types -, and transpose derives the result's index sets as the preimage (not the image) of the source sets under the permutation. Exhaustive over all super() sites, dunders, table entries and construction sites of the package. Index bookkeeping (E13): the axis mapping of t[index] computed by Tensor._get_index_mapping - obtained by abstract interpretation of its source over index KINDS (integer, slice, None, Ellipsis, integer arrays and boolean masks of one and two dimensions, lists) - equals numpy's indexing rules for every index tuple of up to three (thorough: four) elements on tensors of rank 2 to 4 (1792 / 10153 tuples): surviving axes keep their index type, inserted and fancy-indexed axes become collection axes, in numpy's order. The numbers returned, longer index tuples and index arrays of more than two dimensions are NOT decided.",
         "note": "trusts: Python data model operator table, numpy ufunc names, recognised form of Tensor.__init__ (else UNDECIDED)",
     },
     {
